@@ -1,10 +1,11 @@
 SPECIFICATION Spec
 CONSTANTS
-  WLS = {4,5,6,7,8,9,12}
+  WLS = {4,5,6,8,9,12}
   NMin = 3
-  NMax = 5
-  NCol = 3
-  Wids = {1}
+  NMax = 4
+  NCols = {3,4}
+  NMax3 = 5
+  Wids = {1,5}
   H = 40
   U = 0
   AlgVariant = "ok"
